@@ -310,8 +310,15 @@ def read(s):
             attach(atom)
             continue
         if ch_eq(c, '('):
-            if prev is None or just_opened or pending is not None:
-                raise RefReject('branch cannot open here')
+            if prev is None and not stack and not mol.atoms and pos == 0:
+                # chython deliberately admits a parenthesised group at the very start ("(C)O"): treated as part of the
+                # supported language here (see DESIGN C03)
+                stack.append('START')
+                just_opened = True
+                pos += 1
+                continue
+            if prev is None or just_opened or (pending is not None and pending != 'dot'):
+                raise RefReject('branch cannot open here')      # a dot before the branch is admitted (chython's reading)
             stack.append(prev)
             just_opened = True
             pos += 1
@@ -320,6 +327,8 @@ def read(s):
             if not stack or just_opened or pending is not None:
                 raise RefReject('branch cannot close here')
             prev = stack.pop()
+            if prev == 'START':
+                prev = 0          # the group's first atom carries on the chain (chython's reading)
             pos += 1
             continue
         if ch_eq(c, '.'):
@@ -331,8 +340,10 @@ def read(s):
         if ch_in(c, '-=#:~/\\'):
             if prev is None or pending is not None:
                 raise RefReject('bond symbol cannot stand here')
-            cc = ch_concrete(c)
-            pending = (None, cc) if cc in '/\\' else (BOND_ORDERS[cc], None)
+            for lit in '-=#:~/\\':
+                if ch_eq(c, lit):
+                    break
+            pending = (None, lit) if lit in '/\\' else (BOND_ORDERS[lit], None)
             pos += 1
             continue
         isd = ch_is_digit(c)
@@ -345,6 +356,26 @@ def read(s):
                     raise RefReject('ring closure 0')   # chython documents closures from 1
                 pos += 1
             else:
+                if pos + 2 == n and ch_is_digit(s[pos + 1]) and int(ch_digit(s[pos + 1])) != 0:
+                    # "%d" as the very last token is read as closure d by chython on purpose: admitted here too
+                    d1 = s[pos + 1]
+                    num = int(ch_digit(d1))
+                    pos += 2
+                    order, mark = pending if pending else (None, None)
+                    pending = None
+                    if num not in open_rings:
+                        raise RefReject('unclosed ring')
+                    a, o0, m0, slot = open_rings.pop(num)
+                    if a == prev or any(x == ('A', a) for x in mol.atoms[prev].neighbours):
+                        raise RefReject('ring closure duplicates a bond')
+                    if o0 is not None and order is not None and o0 != order:
+                        raise RefReject('ring closure bond symbols disagree')
+                    mol.bonds.append((a, prev, o0 if o0 is not None else order, m0))
+                    if mark is not None:
+                        mol.ring_marks.append((prev, a, mark))
+                    mol.atoms[a].neighbours[slot] = ('A', prev)
+                    mol.atoms[prev].neighbours.append(('A', a))
+                    continue
                 if pos + 2 >= n:
                     raise RefReject('%nn incomplete')
                 d1, d2 = s[pos + 1], s[pos + 2]
@@ -374,25 +405,35 @@ def read(s):
                 open_rings[num] = (prev, order, mark, len(mol.atoms[prev].neighbours))
                 mol.atoms[prev].neighbours.append(('R', num))
             continue
-        # organic subset
-        cc = ch_concrete(c)
-        if cc in AROMATIC:
-            attach(RefAtom(cc.upper(), True))
+        # organic subset (tested character by character so that a symbolic character forks by class only)
+        hit = None
+        for lit in AROMATIC:
+            if ch_eq(c, lit):
+                hit = ('ar', lit)
+                break
+        if hit is None:
+            for lit in ORGANIC:
+                if ch_eq(c, lit):
+                    hit = ('al', lit)
+                    break
+        if hit is None:
+            raise RefReject('unexpected character')
+        kind, lit = hit
+        if kind == 'ar':
+            attach(RefAtom(lit.upper(), True))
             pos += 1
             continue
-        if cc == 'C' and pos + 1 < n and ch_eq(s[pos + 1], 'l'):
+        if lit == 'C' and pos + 1 < n and ch_eq(s[pos + 1], 'l'):
             attach(RefAtom('Cl'))
             pos += 2
             continue
-        if cc == 'B' and pos + 1 < n and ch_eq(s[pos + 1], 'r'):
+        if lit == 'B' and pos + 1 < n and ch_eq(s[pos + 1], 'r'):
             attach(RefAtom('Br'))
             pos += 2
             continue
-        if cc in ORGANIC:
-            attach(RefAtom(cc))
-            pos += 1
-            continue
-        raise RefReject(f'unexpected character {cc!r}')
+        attach(RefAtom(lit))
+        pos += 1
+        continue
     if stack:
         raise RefReject('unclosed branch')
     if just_opened:
